@@ -1,6 +1,8 @@
 #!/bin/bash
 # usage: try_patch.sh <patch> <ID> [<ID>...]   applies the patch to /repo, runs the quick checks, undoes it
 patch=$1; shift
+# runs against a modified tree must not overwrite the committed evidence / replays
+export VERIF_EVIDENCE_DIR=/tmp/verif-mutant-out/evidence VERIF_REPLAY_DIR=/tmp/verif-mutant-out/replays
 cd /repo || exit 2
 if [ -n "$(git status --porcelain)" ]; then echo "/repo not clean"; exit 2; fi
 git apply --3way "$patch" 2>/dev/null || git apply "$patch" || { echo "patch does not apply"; git checkout -- . ; exit 2; }
